@@ -335,7 +335,32 @@ var c11Pairs = []c11Pair{
 			off := uint32(0)
 			for i := 0; i < n; i++ {
 				var t *core.DatatypeMessage
-				if depth < 2 && r.Chance(1, 5) {
+				if depth < 2 && r.Chance(1, 10) {
+					// a nested compound made of string members with one-character names (the
+					// smallest possible member encodings), usually followed by siblings
+					var sub []core.CompoundFieldDef
+					so := uint32(0)
+					for k, nm := 0, r.Range(2, 9); k < nm; k++ {
+						var st *core.DatatypeMessage
+						for try := 0; try < 60 && st == nil; try++ {
+							b := genBasicDT(r)
+							if b.Class == core.DatatypeString {
+								e2, _ := core.EncodeDatatypeMessage(b)
+								st, _ = core.ParseDatatypeMessage(e2)
+							}
+						}
+						if st == nil {
+							break
+						}
+						sub = append(sub, core.CompoundFieldDef{Name: string(rune('a' + k)), Offset: so, Type: st})
+						so += st.Size
+					}
+					if len(sub) > 0 {
+						if enc, err := core.EncodeCompoundDatatypeV3(so, sub); err == nil {
+							t, _ = core.ParseDatatypeMessage(enc)
+						}
+					}
+				} else if depth < 2 && r.Chance(1, 5) {
 					sub, sz := gen(depth + 1)
 					enc, err := core.EncodeCompoundDatatypeV3(sz, sub)
 					if err != nil {
@@ -999,9 +1024,9 @@ var C11 = &ev.Property{
 	},
 	Cases: func(tier string) int {
 		if tier == "thorough" {
-			return len(c11Pairs) * 200
+			return len(c11Pairs) * 5000
 		}
-		return len(c11Pairs) * 10
+		return len(c11Pairs) * 50
 	},
 	Run:   c11Run,
 	Floor: func(tier string) int64 { return 100 },
